@@ -172,7 +172,12 @@ def replay_history(ck, rp, prop, oracles):
   idx = r.get("bundle_index", len(hist) - 1)
   h = HistoryRun(random.Random(0), n_bundles=0, oracles=oracles)
   for b in hist[:idx]:
-    h._raw(b)
+    res = h._raw(b)
+    if "replica" in h.oracles and getattr(res, "ok", False):
+      # the replica follows the prefix too (it is only ever fed `stored`)
+      for a in res.stored:
+        h.replica.apply(a)
+      del h.replica.problems[:]
     ck.evaluated()
   h.apply(hist[idx], ["replay"])
   ck.evaluated()
